@@ -744,10 +744,16 @@ func TestC18CanonicalIPv6QoS(t *testing.T) {
 	cases := map[string]Case{
 		"IPv6-net.IP": {Type: []FieldT{{AVP: "B-IPv6", DT: gen.TIPv6, Kind: KScalar, Go: "ip", Tag: TagPlain}},
 			Val: []FieldV{{Vals: []gen.Val{{T: gen.TIPv6, B: ip6}}}}},
+		// an IPv4 address in Go's 4-byte form (what IP.To4 and the library's own Unmarshal of an
+		// Address / IPv4 AVP produce) in an IPv6-typed field: the same address afterwards (net.IP.Equal)
+		"IPv6-net.IP-4-byte-form": {Type: []FieldT{{AVP: "B-IPv6", DT: gen.TIPv6, Kind: KScalar, Go: "ip", Tag: TagPlain}},
+			Val: []FieldV{{Vals: []gen.Val{{T: gen.TIPv6, B: []byte{10, 1, 0, 1}}}}}},
+		"IPv6-[]net.IP-4-byte-form": {Type: []FieldT{{AVP: "B-IPv6", DT: gen.TIPv6, Kind: KScalar, Wrap: WSlice, Go: "ip", Tag: TagPlain}},
+			Val: []FieldV{{Vals: []gen.Val{{T: gen.TIPv6, B: ip6}, {T: gen.TIPv6, B: []byte{192, 0, 2, 200}}}}}},
 		"QoSFilterRule-string": {Type: []FieldT{{AVP: "B-QoSFilterRule", DT: gen.TQoSFilterRule, Kind: KScalar, Go: "string", Tag: TagPlain}},
 			Val: []FieldV{{Vals: []gen.Val{{T: gen.TQoSFilterRule, B: []byte("permit in ip from any to any")}}}}},
 	}
-	for _, name := range []string{"IPv6-net.IP", "QoSFilterRule-string"} {
+	for _, name := range []string{"IPv6-net.IP", "IPv6-net.IP-4-byte-form", "IPv6-[]net.IP-4-byte-form", "QoSFilterRule-string"} {
 		c := cases[name]
 		c.Dict, c.Flags, c.Cmd, c.App = fixedDict(), 0x80, 300, 0
 		t.Run(name, func(t *testing.T) { prop.One(t, c) })
